@@ -308,6 +308,68 @@ class Ctx:
                                                + jdump(case)[:1500])
 
 
+    # ---- Hypothesis stateful driver --------------------------------------------------------------
+    def run_machine(self, machine_cls, check, max_examples, step_count, salt=0, shrink_budget_s=None, label=''):
+        """Histories: a RuleBasedStateMachine generates and shrinks call sequences.  The machine records its history,
+        reports a failing history through KV['fail'] (and raises), and reports every finished history through
+        KV['count'] in teardown().  `check(case)` is the plain (generator-free) executor of a recorded history: it is
+        used to count/classify finished histories and to re-execute the smallest failing one outside Hypothesis."""
+        import hypothesis
+        from hypothesis import settings, HealthCheck, Phase
+        from hypothesis.stateful import run_state_machine_as_test
+
+        if shrink_budget_s is None:
+            shrink_budget_s = 20 if self.quick else 90
+        st = {'first_fail': None, 'best': None, 'best_size': None, 'harness': None}
+        ctx = self
+
+        def stop():
+            return st['harness'] is not None or (st['first_fail'] is not None and time.time() - st['first_fail'] > shrink_budget_s)
+
+        def fail(case):
+            if st['first_fail'] is None:
+                st['first_fail'] = time.time()
+            size = len(jdump(case))
+            if st['best_size'] is None or size < st['best_size']:
+                st['best'], st['best_size'] = case, size
+
+        def count(case):
+            if st['first_fail'] is not None or st['harness'] is not None:
+                return
+            try:
+                ctx.evaluate(case, check)
+            except HarnessError as he:
+                st['harness'] = str(he)
+
+        M = type(machine_cls.__name__ + 'Run', (machine_cls,), {})
+        M.KV = {'stop': stop, 'fail': fail, 'count': count}
+        sett = settings(max_examples=max_examples, stateful_step_count=step_count, database=None, deadline=None,
+                        report_multiple_bugs=False, derandomize=False, suppress_health_check=list(HealthCheck),
+                        print_blob=False, phases=(Phase.generate, Phase.shrink), verbosity=hypothesis.Verbosity.quiet)
+        try:
+            run_state_machine_as_test(hypothesis.seed(self.shard_seed(salt))(M), settings=sett)
+        except BaseException as exc:
+            if isinstance(exc, (KeyboardInterrupt, SystemExit)):
+                raise
+            if st['best'] is None and st['harness'] is None:
+                # an exception that is not a recorded property failure: the machine itself is broken
+                st['harness'] = ''.join(traceback.format_exception(type(exc), exc, exc.__traceback__))[-3000:]
+        if st['harness']:
+            self.rec.harness_errors.append(st['harness'])
+            return
+        if st['best'] is not None:
+            case = st['best']
+            try:
+                un = self.evaluate(case, check, count=False)
+            except HarnessError as he:
+                self.rec.harness_errors.append(str(he))
+                return
+            if un:
+                self.violation(case, un)
+            else:
+                self.rec.harness_errors.append(f'{label}: failing history did not reproduce outside Hypothesis: ' + jdump(case)[:1500])
+
+
 # ------------------------------------------------------------------------------------------------
 def load_known_findings():
     path = os.path.join(VERIF, 'known_findings.json')
